@@ -17,6 +17,10 @@ func init() {
 	l := zlog.NewStructured()
 	l.SetWriter(zlog.NewTerminalWriter(io.Discard))
 	l.SetLevel(zlog.LevelError)
+	if os.Getenv("VERIF_SDNS_LOG") != "" {
+		l.SetWriter(zlog.StdoutTerminal())
+		l.SetLevel(zlog.LevelDebug)
+	}
 	zlog.SetDefault(l)
 }
 
